@@ -531,6 +531,8 @@ static void q_once(const plan_t *p)
             snprintf(ctxbuf, sizeof ctxbuf, "%s-%s-%s", fname, state, relocate ? "relocated" : "duplicate");
             g_cur_ctx = ctxbuf;
             PROBE("c20_stray_call");
+            { char pn[96]; snprintf(pn, sizeof pn, "c20:%s", g_cur_ctx); probe_dyn(pn); }
+            g_run.nontrivial = 1;
             if (!g_aborted)
                 VIOL("stray_not_caught", "%s through a bitwise %s of a %s object returned instead of aborting", fname, relocate ? "relocation" : "copy", state);
             /* before the abort nothing of the allocation the stray refers to may have been cleared or released */
